@@ -803,18 +803,34 @@ def end_arm(run, ctx):
         n += 1
         if p.val != "Ok(Some(state.saves))":
             run.violation(fam, label, "result", H.where(a[0]), "End must return Ok(Some(state.saves)), found %s" % p.val)
+        # "is there a slot 1": `if let Some(&e) = state.saves.get(1)` or a length test; the end is then the bound
+        # name, state.get(1) or state.saves[1] (named temporaries read through)
         lc = [ev for ev in p.events if ev.kind == "letcond" and ev.b == "state.saves.get(1)"]
-        if not lc:
+        lets_ = {ev.a: ev.b for ev in p.events if ev.kind == "let" and re.match(r"^\w+$", ev.a or "")}
+        ends = {"state.get(1)", "state.saves[1]"}
+        has1 = None
+        if lc:
+            has1 = bool(lc[0].c)
+            m = H.pat_match("Some({e})", lc[0].a)
+            if m:
+                ends.add(m.group("e"))
+        else:
+            li = [i for i, ev in enumerate(p.events) if ev.kind == "cond" and "len(state.saves)" in (ev.a or "")]
+            pfl = S.PathFacts(p.events, (li[0] + 1) if li else 0)      # (later writes to the state forget the fact)
+            if pfl.proves("Gt", "len(state.saves)", 1):
+                has1 = True
+            elif pfl.proves("Le", "len(state.saves)", 1):
+                has1 = False
+        if has1 is None:
             run.violation(fam, label, "cap", H.where(a[0]), "End must look at slot 1 to cap the start")
             continue
-        if lc[0].c:
-            m = H.pat_match("Some({e})", lc[0].a)
-            E = m.group("e") if m else "?"
+        if has1:
             POSN0 = [q.get("name") for q in fn["params"]][2]
-            cut = [i for i, ev in enumerate(p.events) if ev.kind == "cond" and ev.a == "(state.get(0) < %s)" % POSN0]
+            cut = [i for i, ev in enumerate(p.events) if ev.kind == "cond" and H.subst_lets(ev.a or "", lets_) == "(state.get(0) < %s)" % POSN0]
             pf = S.PathFacts(p.events, cut[0] if cut else None)
-            capped = any(ev.kind == "call" and ev.a == "state.save(0,%s)" % E for ev in p.events[:cut[0] if cut else None])
-            if not capped and not pf.proves("Le", "state.get(0)", E):
+            E = sorted(ends)[0]
+            capped = any(ev.kind == "call" and H.subst_lets(ev.a or "", lets_) in {"state.save(0,%s)" % e_ for e_ in ends} for ev in p.events[:cut[0] if cut else None])
+            if not capped and not any(pf.proves("Le", "state.get(0)", e_) for e_ in ends | {k_ for k_, v_ in lets_.items() if v_ in ends}):
                 run.violation(fam, label, "cap-missing", H.where(a[0]), "End returns with start > end possible: the start (slot 0, movable by \\K) must be capped to the end (slot 1)")
             # the start is also capped from below by the search position (a match from an iteration never
             # starts before the previous match's end)
